@@ -267,7 +267,7 @@ CONTRACTS.update({
 
 for _side, _adj, _ord, _other in (('right_neighbors', 'ladj', 'lorder', 'u'), ('left_neighbors', 'radj', 'rorder', 'v')):
     CONTRACTS[(G, 'BipartiteGraphRep.' + _side)] = {
-        'property': ['C16'], 'params': {'self': 'obj:BipartiteGraphRep', _other: 'int'},
+        'property': ['C16'], 'params': {'self': 'obj:BipartiteGraphRep', _other: 'int'}, 'returns': 'intlist',
         'source': (G, 'BipartiteGraph.' + _side),
         'raises': {'ValueError': 'not (1 <= {0} and {0} <= self.{1})'.format(_other, _ord)},
         # a copy of the (sorted, duplicate-free by INV) adjacency list; empty for a vertex without neighbours
